@@ -130,6 +130,11 @@ fn controller(ctx: Arc<Ctx>, opts: ExecOpts) -> ExecStats {
                 last_progress = Instant::now();
             }
         }
+        if g.paused || g.hold_until.map(|t| Instant::now() < t).unwrap_or(false) {
+            if !g.done {
+                continue;
+            }
+        }
         stats.max_held = stats.max_held.max(g.waiting.len());
         let cand: Vec<usize> = g.waiting.iter().copied().filter(|x| !g.released.contains(x)).collect();
         if cand.is_empty() {
@@ -245,4 +250,126 @@ pub fn lifecycle(r: &mut Recorded, pre: &[crate::prog::Res], repeat: usize, disp
     evs.append(&mut ctx.take_log());
     evs.push(json!({"ev":"disposecall","d":r.top,"phase":"end","out": if res.is_ok() {"ok"} else {"panic"}}));
     r.rec.events.append(&mut evs);
+}
+
+// ---------------------------------------------------------------------------------------
+// async dispatcher sessions (C15)
+
+#[cfg(feature = "parallel")]
+pub mod asyncx {
+    use super::*;
+    use crate::{build::Recorder, prog::{Prog, Variant}};
+    use shred::AsyncDispatcher;
+
+    pub struct ASession {
+        pub rec: Recorder,
+        pub ad: AsyncDispatcher<'static, World>,
+        pub top: usize,
+    }
+
+    /// reset, registration events, build_async, `built` event
+    pub fn record_async(prog: &Prog, variant: Variant, prog_no: usize, pool: std::sync::Arc<rayon::ThreadPool>) -> ASession {
+        let mut rec = Recorder::new(variant, false);
+        rec.events.push(json!({"ev":"reset","prog":prog_no,"var":0}));
+        let (b, top) = rec.build(prog);
+        let b = b.with_pool(pool);
+        let mut ad = b.build_async(World::empty());
+        let dl = ad.verif_layout();
+        let (lay, tl) = rec.layout_gids(&dl);
+        rec.events.push(json!({"ev":"built","b":top,"out":"ok","lay":lay,"tl":tl,"maxthreads":0,"parallel":false,"same":true}));
+        ASession { rec, ad, top }
+    }
+
+    fn acall<T>(ctx: &Ctx, op: &str, f: impl FnOnce() -> T) -> Option<T> {
+        ctx.ev(json!({"ev":"acall","op":op,"phase":"begin"}));
+        let r = catch_unwind(AssertUnwindSafe(f));
+        r.ok()
+    }
+
+    /// Runs a sequence of calls on the async dispatcher while the controller holds the
+    /// background systems inside run.  ops: dispatch | running | wait | wait_without_tl |
+    /// world | world_mut | setup
+    pub fn run_session(s: &mut ASession, ops: &[String], seed: u64, quiet_us: u64, hold_ms: u64) -> ExecStats {
+        let ctx = s.rec.ctx.clone();
+        ctx.claim_caller();
+        ctx.log_exec.store(true, Ordering::Relaxed);
+        ctx.setup_log.store(false, Ordering::Relaxed);
+        ctx.panic_set.lock().unwrap().clear();
+        // setup first (creates the resources), then the session proper
+        s.ad.setup();
+        {
+            let w: &World = s.ad.world();
+            let (rid, val) = world_values(&ctx, w);
+            ctx.ev(json!({"ev":"world0","rid":rid,"val":val}));
+        }
+        ctx.ev(json!({"ev":"abegin","d":s.top}));
+        {
+            let mut g = ctx.gate.lock().unwrap();
+            *g = Gate::default();
+            g.enabled = true;
+            g.paused = true;
+        }
+        let opts = ExecOpts { mode: Mode::Disp, gated: true, quiet_us, seed, jitter_us: 0, panics: vec![], policy: 0 };
+        let c2 = ctx.clone();
+        let sched = std::thread::spawn(move || controller(c2, opts));
+        for op in ops {
+            let blocking = op != "running";
+            {
+                // non-blocking polls happen while everything is held; a blocking call is
+                // given a head start before the first release
+                let mut g = ctx.gate.lock().unwrap();
+                if blocking {
+                    g.paused = false;
+                    g.hold_until = Some(Instant::now() + Duration::from_millis(hold_ms));
+                } else {
+                    g.paused = true;
+                }
+                ctx.cv.notify_all();
+            }
+            let ad = &mut s.ad;
+            let (out, ret): (bool, Value) = match op.as_str() {
+                "dispatch" => {
+                    let r = acall(&ctx, op, || ad.dispatch());
+                    (r.is_some(), json!(false))
+                }
+                "running" => {
+                    let r = acall(&ctx, op, || ad.running());
+                    (r.is_some(), json!(r.unwrap_or(false)))
+                }
+                "wait" => (acall(&ctx, op, || ad.wait()).is_some(), json!(false)),
+                "wait_without_tl" => (acall(&ctx, op, || ad.wait_without_tl()).is_some(), json!(false)),
+                "world" => (acall(&ctx, op, || { let _ = ad.world(); }).is_some(), json!(false)),
+                "world_mut" => (acall(&ctx, op, || { let _ = ad.world_mut(); }).is_some(), json!(false)),
+                _ => (acall(&ctx, "setup", || ad.setup()).is_some(), json!(false)),
+            };
+            ctx.ev(json!({"ev":"acall","op":if op == "setup" || ["dispatch","running","wait","wait_without_tl","world","world_mut"].contains(&op.as_str()) {op.as_str()} else {"setup"},
+                          "phase":"end","out": if out {"ok"} else {"panic"},"ret":ret}));
+            if op == "dispatch" {
+                // after a dispatch everything is held until the next blocking call
+                let mut g = ctx.gate.lock().unwrap();
+                g.paused = true;
+            }
+        }
+        // drain: make sure nothing is in flight any more
+        {
+            let mut g = ctx.gate.lock().unwrap();
+            g.paused = false;
+            g.hold_until = None;
+            ctx.cv.notify_all();
+        }
+        let _ = catch_unwind(AssertUnwindSafe(|| s.ad.wait_without_tl()));
+        {
+            let mut g = ctx.gate.lock().unwrap();
+            g.done = true;
+            ctx.cv.notify_all();
+        }
+        let stats = sched.join().unwrap();
+        {
+            let mut g = ctx.gate.lock().unwrap();
+            g.enabled = false;
+        }
+        let mut evs = ctx.take_log();
+        s.rec.events.append(&mut evs);
+        stats
+    }
 }
